@@ -12,6 +12,71 @@ def hx(b):
     return b.hex() if b else "-"
 
 
+# Every sub-process of this step is bounded in wall-clock time AND in the amount of output kept: an
+# implementation under test that loops or prints for ever must cost seconds, not the machine.
+_CAP = 16 << 20
+
+
+def _bounded(cmd, inp=None, timeout=60, cap=_CAP, env=None):
+    """Run cmd, feed `inp` (bytes) to its stdin, return (stdout bytes (at most cap), status) with status
+    'ok' | 'timeout' | 'overflow' | 'spawn-failed'.  Never raises, never waits longer than timeout + 2 s."""
+    import select, threading
+    try:
+        p = subprocess.Popen(cmd, stdin=subprocess.PIPE if inp is not None else subprocess.DEVNULL,
+                             stdout=subprocess.PIPE, stderr=subprocess.DEVNULL, env=env)
+    except OSError:
+        return b"", "spawn-failed"
+    if inp is not None:
+        def feed():
+            try:
+                p.stdin.write(inp)
+                p.stdin.close()
+            except OSError:
+                pass
+        threading.Thread(target=feed, daemon=True).start()
+    out, status = bytearray(), "ok"
+    end = time.time() + timeout
+    fd = p.stdout.fileno()
+    while True:
+        left = end - time.time()
+        if left <= 0:
+            status = "timeout"
+            break
+        r, _, _ = select.select([fd], [], [], min(left, 0.5))
+        if not r:
+            continue
+        try:
+            d = os.read(fd, 1 << 16)
+        except OSError:
+            break
+        if not d:
+            break
+        out += d
+        if len(out) > cap:
+            status = "overflow"
+            break
+    if status != "ok":
+        p.kill()
+    try:
+        p.wait(timeout=2)
+    except subprocess.TimeoutExpired:
+        p.kill()
+    try:
+        p.stdout.close()
+    except OSError:
+        pass
+    return bytes(out[:cap]), status
+
+
+def _quick(cmd, env=None, timeout=10):
+    """a short helper command (tmux): bounded, (returncode, stdout text, stderr text); returncode -1 on timeout"""
+    try:
+        r = subprocess.run(cmd, env=env, stdout=subprocess.PIPE, stderr=subprocess.PIPE, text=True, timeout=timeout)
+        return r.returncode, r.stdout[:1 << 20], r.stderr[:2000]
+    except (subprocess.TimeoutExpired, OSError) as e:
+        return -1, "", str(e)[:200]
+
+
 def run_tmux(ctx):
     tmux = shutil.which("tmux")
     if not tmux:
@@ -43,11 +108,15 @@ def run_tmux(ctx):
                 txt += b"\x1b[0m"
             items.append("%d:%s" % (line, hx(txt)))
         cases.append("C20 term %d %d %s" % (width, trim, ",".join(items)))
-    p = subprocess.run([os.path.join(ctx["bin"], "corr_C20"), "run", "C20"], input="\n".join(cases) + "\n",
-                       stdout=subprocess.PIPE, text=True, timeout=120)
-    answers = p.stdout.strip().split("\n")
+    raw, st = _bounded([os.path.join(ctx["bin"], "corr_C20"), "run", "C20"], ("\n".join(cases) + "\n").encode(), timeout=90)
+    answers = raw.decode("utf-8", "replace").strip().split("\n")
     violations = []
     runs = 0
+    if st != "ok" or len(answers) != len(cases):
+        k = min(len(answers), len(cases) - 1)
+        return {"runs": 0, "violations": [{"key": "termwriter-run-" + st, "case": cases[k],
+                                           "explanation": "the real TermWriter did not answer %d generated histories within 90 s / %d MiB (status %s, %d answers); first unanswered case given"
+                                                          % (len(cases), _CAP >> 20, st, len(answers))}], "assumptions": []}
     sess = "c20v%d" % os.getpid()
     for case, ans in zip(cases, answers):
         f = dict(kv.split("=", 1) for kv in ans.split(" ")[1:] if "=" in kv)
@@ -58,20 +127,20 @@ def run_tmux(ctx):
         data = bytes.fromhex(f["b"]) if f["b"] != "-" else b""
         path = os.path.join(work, "bytes.bin")
         open(path, "wb").write(data)
-        subprocess.run([tmux, "-f", "/dev/null", "kill-session", "-t", sess], env=env, stderr=subprocess.DEVNULL)
-        r = subprocess.run([tmux, "-f", "/dev/null", "new-session", "-d", "-s", sess, "-x", str(width), "-y", str(len(rows) + 3),
-                            "cat %s; sleep 30" % path], env=env, stderr=subprocess.PIPE, text=True)
-        if r.returncode != 0:
-            return {"runs": runs, "violations": violations, "assumptions": ["tmux could not start a session: " + r.stderr[:200]]}
+        _quick([tmux, "-f", "/dev/null", "kill-session", "-t", sess], env=env)
+        rc, _, err = _quick([tmux, "-f", "/dev/null", "new-session", "-d", "-s", sess, "-x", str(width), "-y", str(len(rows) + 3),
+                             "cat %s; sleep 30" % path], env=env)
+        if rc != 0:
+            return {"runs": runs, "violations": violations, "assumptions": ["tmux could not start a session: " + err[:200]]}
         got = None
         for _ in range(40):
             time.sleep(0.05)
-            c = subprocess.run([tmux, "-f", "/dev/null", "capture-pane", "-p", "-t", sess], env=env, stdout=subprocess.PIPE, text=True)
-            lines = c.stdout.split("\n")
+            _, cout, _ = _quick([tmux, "-f", "/dev/null", "capture-pane", "-p", "-t", sess], env=env)
+            lines = cout.split("\n")
             got = [l.rstrip() for l in lines[:len(rows)]]
             if got == [r_.rstrip() for r_ in rows]:
                 break
-        subprocess.run([tmux, "-f", "/dev/null", "kill-session", "-t", sess], env=env, stderr=subprocess.DEVNULL)
+        _quick([tmux, "-f", "/dev/null", "kill-session", "-t", sess], env=env)
         runs += 1
         if got != [r_.rstrip() for r_ in rows]:
             violations.append({"key": "tmux-differs", "case": case, "reference_machine_rows": rows, "tmux_rows": got,
@@ -80,7 +149,7 @@ def run_tmux(ctx):
                 break
     return {"runs": runs, "violations": violations,
             "assumptions": ["reference terminal compared with tmux %s on %d sessions of the real TermWriter (ASCII + SGR texts; width-1 cells assumed for every rune)" %
-                            (subprocess.run([tmux, "-V"], stdout=subprocess.PIPE, text=True).stdout.strip(), runs)]}
+                            (_quick([tmux, "-V"])[1].strip(), runs)]}
 
 
 # ---------------------------------------------------------------------------------------------------------------
@@ -141,9 +210,11 @@ def _strip_sgr(s):
 
 def _screen(ctx, cols, rows, data):
     case = "C20 vt %d %d 0 0 %s" % (cols, rows, hx(data))
-    p = subprocess.run([os.path.join(ctx["bin"], "corr_C20"), "run", "C20"], input=case + "\n", stdout=subprocess.PIPE, text=True, timeout=60)
-    ans = p.stdout.strip()
+    raw, _ = _bounded([os.path.join(ctx["bin"], "corr_C20"), "run", "C20"], (case + "\n").encode(), timeout=60)
+    ans = raw.decode("utf-8", "replace").strip()
     f = dict(kv.split("=", 1) for kv in ans.split(" ")[1:] if "=" in kv)
+    if not ans.startswith("ok ") or "rows" not in f:
+        return [""] * rows, -1, False      # the reference terminal gave no answer: reported by the caller as a difference
     scr = [bytes.fromhex(r).decode("utf-8", "replace") if r != "-" else "" for r in f["rows"].split(";")]
     return scr, int(f["row"]), f["vis"] == "1"
 
@@ -175,7 +246,12 @@ def run_cli(ctx):
         rows = 40
         top = rnd.choice([3, 5, 20])
         cmd = [rare, "histo", "-m", r"(\S+) (\d+)", "-e", "{1}", "-n", str(top), path]
-        piped = subprocess.run(cmd, stdout=subprocess.PIPE, stderr=subprocess.DEVNULL, timeout=60).stdout.decode("utf-8", "replace")
+        praw, pst = _bounded(cmd, timeout=60)
+        piped = praw.decode("utf-8", "replace")
+        if pst != "ok":
+            violations.append({"key": "cli-piped-" + pst, "cmd": " ".join(cmd), "explanation": "rare histo with piped output (BufferedTerm) did not finish within 60 s / %d MiB of output" % (_CAP >> 20),
+                               "piped_output": piped[:2000]})
+            break
         want = [_strip_sgr(l) for l in piped.split("\n")]
         if want and want[-1] == "":
             want.pop()
@@ -203,7 +279,7 @@ def run_cli(ctx):
     chunk1 = "".join("key%d %d\n" % (i % 7, i) for i in range(200)).encode()
     chunk2 = "".join("key%d %d\n" % (i % 3, i) for i in range(300)).encode()
     cmd = [rare, "histo", "-m", r"(key\d+) (\d+)", "-e", "{1}", "-n", "6", "-"]
-    piped = subprocess.run(cmd, input=chunk1 + chunk2, stdout=subprocess.PIPE, stderr=subprocess.DEVNULL, timeout=60).stdout.decode("utf-8", "replace")
+    piped = _bounded(cmd, chunk1 + chunk2, timeout=60)[0].decode("utf-8", "replace")
     want = [_strip_sgr(l) for l in piped.split("\n")]
     if want and want[-1] == "":
         want.pop()
